@@ -139,9 +139,21 @@ func (s *CaseSink) Add(coq string, replay interface{}, kind string, nontrivial b
 	return idx
 }
 
+// Begin records the case about to run, so that a process crash can be attributed to it.
+func (s *CaseSink) Begin(replay interface{}) {
+	bs, _ := json.Marshal(replay)
+	os.WriteFile(filepath.Join(s.dir, "current.json"), bs, 0644)
+}
+
+// Done marks a clean end of the run.
+func (s *CaseSink) Done() { os.Remove(filepath.Join(s.dir, "current.json")) }
+
 func (s *CaseSink) Count(kind string, n int) { s.meta.Distribution[kind] += n }
 
 func (s *CaseSink) Fail(idx int, what, sig string, replay interface{}) {
+	if len(what) > 1500 {
+		what = what[:1500] + "..."
+	}
 	s.meta.OracleFailures = append(s.meta.OracleFailures, OracleFailure{Index: idx, What: what, Replay: replay, Signature: sig})
 }
 
@@ -183,6 +195,7 @@ func (s *CaseSink) Flush() error {
 	if err != nil {
 		return err
 	}
+	s.Done()
 	return os.WriteFile(filepath.Join(s.dir, "meta.json"), bs, 0644)
 }
 
